@@ -112,6 +112,10 @@ structure Param where
   name : String
   cst : PCst
   ty : Ty
+  /-- the bound names of a range / slice parameter (`r[a .. b] : range`, `s[f .. t] : int`):
+  `param_new_range_dim` makes each a `var int` of the function's table (C: VAR whatever the
+  parameter's own constness — they are assignable: known finding) -/
+  bnames : List (Ln × String)
 
 inductive Rule
   | undefId | undefAttr | attrNonRecord | undefEnumItem | enumOnNonEnum
@@ -178,6 +182,8 @@ inductive Expr
   | slice (ln : Ln) (a : Expr) (bounds : ExprList)
   /-- `l |> f(args)` -/
   | pipe (ln : Ln) (l : Expr) (f : Expr) (args : ExprList)
+  /-- `if let (En::it = e) t else f` (item guard; `gln` is the guard's line) -/
+  | ifLet (ln gln : Ln) (en it : String) (e t f : Expr)
 inductive ExprList
   | nil
   | cons (e : Expr) (rest : ExprList)
@@ -226,6 +232,7 @@ def Expr.ln : Expr → Ln
   | .ass l _ _ | .while_ l _ _ | .forIn l _ _ _ | .call l _ _ | .seq l _ | .attr l _ _
   | .match_ l _ _ | .array l _ _ _ | .deref l _ _ | .listcomp l _ _ _ _ => l
   | .tuple l _ _ | .proj l _ _ _ | .range l _ | .slice l _ _ | .pipe l _ _ _ => l
+  | .ifLet l _ _ _ _ _ _ => l
   | .funcLit _ => 0
   | .sub _ => 0
 
@@ -807,11 +814,20 @@ def paramTys : List Param → TyList
 
 def Sig.entry (s : Sig) : Entry := .func (paramTys s.ps) s.rc s.r
 
+/-- `symtab_add_param_from_range_list` -/
+def addBounds (Γ : Env) : List (Ln × String) → Except Diag Env
+  | [] => .ok Γ
+  | (ln, x) :: r => do
+    let Γ' ← Γ.add ln x (.param .var .int)
+    addBounds Γ' r
+
 /-- `symtab_add_param_from_param_list` -/
 def addParams (Γ : Env) : List Param → Except Diag Env
   | [] => .ok Γ
   | p :: r => do
-    let Γ' ← Γ.add p.ln p.name (.param p.cst p.ty)
+    -- `symtab_add_param_from_basic_param`: a parameter without a name is not entered
+    let Γ1 ← (if p.name = "" then .ok Γ else Γ.add p.ln p.name (.param p.cst p.ty))
+    let Γ' ← addBounds Γ1 p.bnames
     addParams Γ' r
 
 def resolveParams (Γ : Env) : List Param → Except Diag (List Param)
@@ -926,6 +942,13 @@ def exhaustiveM (Γ : Env) (en : String) (gs : GuardList) (m : Marks) : Bool × 
 def runMatches (Γ : Env) : List (String × GuardList) → Marks → Marks
   | [], m => m
   | (en, gs) :: rest, m => runMatches Γ rest (exhaustiveM Γ en gs m).2
+
+/-- `expr_match_guard_item_check_type`: the guard `En::it` resolves (match guards, if-let) -/
+def guardItemPre (Γ : Env) (ln : Ln) (en it : String) : Except Diag Unit :=
+  match Γ.lookup en with
+  | none => .error ⟨ln, .matchGuardEnum⟩
+  | some .enum => if Γ.hasItem en it then .ok () else .error ⟨ln, .matchGuardItem⟩
+  | some _ => .error ⟨ln, .matchGuardNotEnum⟩
 
 /-! ## the checker -/
 
@@ -1129,6 +1152,20 @@ def tc (Γ : Env) : Expr → Except Diag Comb
         (pipeCmp ps.toList (l.ln, cl) cs).toExcept ⟨ln, .callMismatch⟩
         pure ⟨.val r, rc.toCst⟩
     | _ => .error ⟨ln, .pipeNotFunc⟩
+  | .ifLet ln gln en it e t f => do
+    -- `iflet_check_type` (item guard), then `expr_comb_cmp_and_set` on the two branches
+    let ce ← tc Γ e
+    match ce.ct with
+    | .val (.enum en') =>
+      guardItemPre Γ gln en it
+      let ct ← tc Γ t
+      let cf ← tc Γ f
+      if en' == en then
+        match combCmp ct.ct cf.ct with
+        | .ok t' => pure ⟨t', .temp⟩
+        | .error r => .error ⟨ln, r⟩
+      else .error ⟨ln, .matchGuardDiffers⟩
+    | _ => .error ⟨e.ln, .matchNotEnum⟩
   | .listcomp ln e qs rc rty => do
     let Γq ← tcQuals Γ.push qs
     let ce ← tc Γq e
